@@ -656,7 +656,7 @@ class _SetOperation(Selectable, Term):  # type:ignore[misc]
         the alias, otherwise the field will be rendered as SQL.
         """
         clauses = []
-        ctx = ctx.copy(subquery=True)  # a sub-query used as a sort key is a parenthesised scalar sub-query
+        ctx = ctx.copy(subquery=True, with_alias=False)  # sort keys: sub-queries parenthesised, no aliases
         selected_aliases = {s.alias for s in self.base_query._selects}
         for field, directionality in self._orderbys:
             term = (
@@ -1669,12 +1669,12 @@ class QueryBuilder(Selectable, Term):  # type:ignore[misc]
         )
 
     def _prewhere_sql(self, ctx: SqlContext) -> str:
-        prewhere_sql = ctx.copy(subquery=True)
+        prewhere_sql = ctx.copy(subquery=True, with_alias=False)
         prewheres = cast(QueryBuilder, self._prewheres)
         return " PREWHERE {prewhere}".format(prewhere=prewheres.get_sql(prewhere_sql))
 
     def _where_sql(self, ctx: SqlContext) -> str:
-        where_ctx = ctx.copy(subquery=True)
+        where_ctx = ctx.copy(subquery=True, with_alias=False)
         wheres = cast(QueryBuilder, self._wheres)
         return " WHERE {where}".format(where=wheres.get_sql(where_ctx))
 
@@ -1692,7 +1692,7 @@ class QueryBuilder(Selectable, Term):  # type:ignore[misc]
         otherwise the entire field will be rendered as SQL.
         """
         clauses = []
-        ctx = ctx.copy(subquery=True)  # a sub-query used as a grouping key is a parenthesised scalar sub-query
+        ctx = ctx.copy(subquery=True, with_alias=False)  # grouping keys: sub-queries parenthesised, no aliases
         selected_aliases = {s.alias for s in self._selects}
         for field in self._groupbys:
             if (alias := field.alias) and alias in selected_aliases:
@@ -1728,7 +1728,7 @@ class QueryBuilder(Selectable, Term):  # type:ignore[misc]
         the alias, otherwise the field will be rendered as SQL.
         """
         clauses = []
-        ctx = ctx.copy(subquery=True)  # a sub-query used as a sort key is a parenthesised scalar sub-query
+        ctx = ctx.copy(subquery=True, with_alias=False)  # sort keys: sub-queries parenthesised, no aliases
         selected_aliases = {s.alias for s in self._selects}
         for field, directionality in self._orderbys:
             term = (
@@ -1749,7 +1749,9 @@ class QueryBuilder(Selectable, Term):  # type:ignore[misc]
         return " WITH ROLLUP"
 
     def _having_sql(self, ctx: SqlContext) -> str:
-        having = self._havings.get_sql(ctx.copy(subquery=True))  # type:ignore[union-attr]
+        having = self._havings.get_sql(  # type:ignore[union-attr]
+            ctx.copy(subquery=True, with_alias=False)
+        )
         return f" HAVING {having}"
 
     def _offset_sql(self, ctx: SqlContext) -> str:
@@ -1887,7 +1889,7 @@ class JoinOn(Join):
 
     def get_sql(self, ctx: SqlContext) -> str:
         join_sql = super().get_sql(ctx)
-        criterion_ctx = ctx.copy(subquery=True)
+        criterion_ctx = ctx.copy(subquery=True, with_alias=False)
         return "{join} ON {criterion}{collate}".format(
             join=join_sql,
             criterion=self.criterion.get_sql(criterion_ctx),
